@@ -202,6 +202,32 @@ fn write_atomic_impl(path: &Path, bytes: &[u8], fsync: bool) -> anyhow::Result<(
     Ok(())
 }
 
+/// Give a permission error raised by any filesystem step of apply / rollback (creating snapshot
+/// directories, copying backups, removing files) the same stable code as a failed atomic write.
+/// Errors that already carry a `UserError`, and non-permission errors, are returned unchanged.
+pub(crate) fn classify_permission_error(err: anyhow::Error) -> anyhow::Error {
+    if err.chain().any(|e| e.downcast_ref::<UserError>().is_some()) {
+        return err;
+    }
+    let Some(io) = err.chain().find_map(|e| e.downcast_ref::<std::io::Error>()) else {
+        return err;
+    };
+    if io.kind() != std::io::ErrorKind::PermissionDenied {
+        return err;
+    }
+    let io_kind = io.kind();
+    let raw_os_error = io.raw_os_error();
+    anyhow::Error::new(
+        UserError::new("E_IO_PERMISSION_DENIED", format!("permission denied: {err:#}")).with_details(
+            serde_json::json!({
+                "io_kind": format!("{io_kind:?}"),
+                "raw_os_error": raw_os_error,
+                "hint": "ensure the destination and the agentpack state directory are writable and retry",
+            }),
+        ),
+    )
+}
+
 fn classify_write_error(path: &Path, err: anyhow::Error) -> anyhow::Error {
     let Some(io) = err.chain().find_map(|e| e.downcast_ref::<std::io::Error>()) else {
         return err;
